@@ -825,8 +825,10 @@ pub fn check_main(prop: &str, tier: Tier, extra: &dyn Fn(Tier, u64, u64, &BTreeM
     for (profile, r, case, v) in &found {
         if let Some(f) = match_known(&known, &v.sig) {
             *known_hits.entry(v.sig.key()).or_insert(0) += 1;
-            if printed_known.insert(v.sig.key()) {
-                println!("KNOWN-FINDING: property={} {} [{}]", f.property, f.what, v.sig.key());
+            // one line per listed finding (an entry may cover several operations / outcome classes)
+            let entry_key = format!("{}/{}/{}/{}/{}", f.property, f.family, f.op, f.class, f.shape);
+            if printed_known.insert(entry_key.clone()) {
+                println!("KNOWN-FINDING: property={} {} [{}]", f.property, f.what, entry_key);
             }
         } else {
             let e = unknown
